@@ -2,6 +2,7 @@ package streams
 
 import (
 	"context"
+	"errors"
 	"fmt"
 	"math"
 	"os"
@@ -55,7 +56,7 @@ import (
 //	    must resume afterwards; the committed one also inserts an expired document; plain client writes queue up
 //	    behind it); mode contend: three more groups of documents expire (a pass really deletes every 100 ms)
 //	    while a holder keeps session transactions open for 100..800 ms and three plain writers queue up behind
-//	    it — the expiry goroutine as one writer among many, with the Property C04 monitors of
+//	    it — the expiry goroutine as one writer among many (mode fault: see below), with the Property C04 monitors of
 //	    ttlclock_clients.go (also active in busy and sess-*); mode close: Engine.Close before or after the
 //	    cutoff (must return, nothing may change afterwards);
 //	(4) check against the wall-clock oracle. A document is classified per snapshot (t0 before, t1 after
@@ -66,6 +67,13 @@ import (
 //	    everything in between is a boundary document and gets NO verdict. A must-be-gone document that is
 //	    still present is re-checked after another 10 intervals + 400 ms before it is reported.
 //
+// Mode fault (recovery from a transient fault): fully idle like timed, six groups of "soon" documents; exactly one
+// Store call — the commit of the k-th pass (k = 1..4) that removes something after the insert phase — fails (before
+// or after the inner store was written); Options.ExpireErrors is nil, a fast callback, or a slow one that sleeps two
+// intervals and reads Engine.Catalog(). The documents of the failed pass and of the later groups must still be removed
+// within the usual slack after the fault / the end of the slow callback (ttl-clock:stalled-after-fault), by a pass
+// that is complete (pass-incomplete; a failed call is not in the commit log), with exactly one delete event each.
+//
 // A document that must be present but is gone while the change log has neither a delete event nor its insert event
 // was not removed by the expiry: it is a lost acknowledged write (Property C04, ttl-clock:ack-lost; see
 // ttlclock_clients.go).
@@ -75,7 +83,7 @@ import (
 // ttl-clock:pass-incomplete (exact, from the commit log of the wrapped store: a pass that removed something left
 // a document that was already expired when the pass began), ttl-clock:delete-events (≠ exactly one delete event
 // per removed document, or a delete event for a kept or unknown document), ttl-clock:index-incoherent (index members ≠ documents [matching the partial
-// filter]), ttl-clock:active-after-close, ttl-clock:close-hang, ttl-clock:panic, ttl-clock:setup-failed.
+// filter]), ttl-clock:active-after-close, ttl-clock:close-hang, ttl-clock:engine-wedged, ttl-clock:panic, ttl-clock:setup-failed.
 // The delete events' own wallTime gives a second, tight "removed-fresh" check (wallTime < X − 5 ms) and the
 // latency tags (wallTime − X of the last "soon" removals, in intervals).
 
@@ -87,7 +95,7 @@ const (
 	tcNever         = int64(math.MaxInt64)
 )
 
-var tcModes = []string{"timed", "canary", "busy", "sess-commit", "sess-abort", "close", "reopen", "contend"}
+var tcModes = []string{"timed", "canary", "busy", "sess-commit", "sess-abort", "close", "reopen", "contend", "fault"}
 
 type tcParams struct {
 	Mode   string
@@ -96,6 +104,7 @@ type tcParams struct {
 	SoonMs int    // the "soon" documents become expired SoonMs after the insert phase started
 	Field  string // name of the date field (TTL key in the TTL collections, plain field elsewhere)
 	Bits   uint64 // remaining per-case choices (index-before-documents per collection, close early/late, ...)
+	Rep    string // mode fault: the kind of Options.ExpireErrors callback ("" = from Bits)
 }
 
 func (p tcParams) String() string {
@@ -166,8 +175,12 @@ type tcScn struct {
 	errText     string
 	seq         int
 
-	counters []tcCounterSpec // shared counters of the client writers
-	ops      []*tcOp         // client operations (ttlclock_clients.go)
+	counters  []tcCounterSpec // shared counters of the client writers
+	faults    int             // injected store failures that fired (mode fault)
+	faultAt   int64           // ms
+	reporter  string          // mode fault: "nil" | "fast" | "slow" (sleeps two intervals and reads the catalog)
+	faultErrs int             // injected failures that reached Options.ExpireErrors
+	ops       []*tcOp         // client operations (ttlclock_clients.go)
 }
 
 func tcMs(t time.Time) int64 { return t.UnixMilli() }
@@ -189,6 +202,10 @@ type tcStore struct {
 	baseLen  int   // oplog length of the loaded catalog
 	log      []tcCommit
 	shrunk   bool // the oplog got shorter (retention): event indexes are not stable, no pass audit
+
+	failIn         int // fault injection (mode fault): the failIn-th call from now fails
+	failAfterWrite bool
+	onFault        func(end time.Time)
 }
 
 type tcCommit struct {
@@ -220,7 +237,35 @@ func (t *tcStore) count() int {
 	return t.calls
 }
 
+// errTcFault is the injected store failure of mode fault.
+var errTcFault = errors.New("injected store failure")
+
+// arm makes the k-th Store call from now on fail, once (afterWrite: the inner store is written first and the
+// failure is only reported — the engine must not care). A failed call is not part of the commit log.
+func (t *tcStore) arm(k int, afterWrite bool, onFault func(end time.Time)) {
+	t.mu.Lock()
+	t.failIn, t.failAfterWrite, t.onFault = k, afterWrite, onFault
+	t.mu.Unlock()
+}
+
 func (t *tcStore) Store(c *lungo.Catalog) error {
+	t.mu.Lock()
+	fail := false
+	if t.failIn > 0 {
+		t.failIn--
+		fail = t.failIn == 0
+	}
+	afterWrite, onFault := t.failAfterWrite, t.onFault
+	t.mu.Unlock()
+	if fail {
+		if afterWrite {
+			_ = t.inner.Store(c)
+		}
+		if onFault != nil {
+			onFault(time.Now())
+		}
+		return errTcFault
+	}
 	start := time.Now()
 	err := t.inner.Store(c)
 	end := time.Now()
@@ -527,7 +572,7 @@ func (s *tcScn) buildLayout(soonRound bool) map[*tcColl][]*tcDoc {
 		}
 	}
 	// mode contend: more groups of documents that expire during the case (every 100 ms a pass really deletes)
-	if soonRound && s.p.Mode == "contend" {
+	if soonRound && (s.p.Mode == "contend" || s.p.Mode == "fault") {
 		for _, cl := range s.colls {
 			if len(cl.ttls) != 1 || cl.dropTTL || strings.Contains(cl.ttls[0].field, ".") || cl.unique != "" {
 				continue
@@ -653,9 +698,25 @@ type tcSnap struct {
 	present  map[lungo.Handle]map[string]bool
 }
 
+// tcWedged aborts a scenario whose engine does not answer any more.
+type tcWedged struct{}
+
+// catalog is Engine.Catalog() under a watchdog: an engine whose lock is held for good must not hang the harness.
+func (s *tcScn) catalog() *lungo.Catalog {
+	ch := make(chan *lungo.Catalog, 1)
+	go func() { ch <- s.engine.Catalog() }()
+	select {
+	case c := <-ch:
+		return c
+	case <-time.After(5 * time.Second):
+		s.viol("ttl-clock:engine-wedged", "Engine.Catalog() did not return within 5 s: the engine lock is held for good", "mode "+s.p.Mode+", reporter "+s.reporter)
+		panic(tcWedged{})
+	}
+}
+
 func (s *tcScn) snapshot() tcSnap {
 	t0 := time.Now()
-	cat := s.engine.Catalog()
+	cat := s.catalog()
 	t1 := time.Now()
 	sn := tcSnap{t0: tcMs(t0), t1: tcMs(t1) + 1, slowEnd: s.store.lastSlow(), cat: cat, present: map[lungo.Handle]map[string]bool{}}
 	for h, ns := range cat.Namespaces {
@@ -967,7 +1028,7 @@ func (s *tcScn) audit(sn tcSnap) (maxLatency int64) {
 func (s *tcScn) waitGone(ds []*tcDoc, limit time.Duration) bool {
 	deadline := time.Now().Add(limit)
 	for {
-		cat := s.engine.Catalog()
+		cat := s.catalog()
 		left := 0
 		for _, d := range ds {
 			if ns := cat.Namespaces[d.h]; ns != nil {
@@ -1010,14 +1071,35 @@ func (s *tcScn) lastSoon() int64 {
 
 func (s *tcScn) open(store lungo.Store, interval time.Duration) error {
 	s.store = &tcStore{inner: store, openedAt: tcMs(time.Now())}
-	client, engine, err := lungo.Open(nil, lungo.Options{Store: s.store, ExpireInterval: interval, ExpireErrors: func(err error) {
+	reporter := func(err error) {
 		s.mu.Lock()
 		s.errs++
 		if s.errText == "" {
 			s.errText = err.Error()
 		}
+		injected := errors.Is(err, errTcFault)
+		if injected {
+			s.faultErrs++
+		}
+		slow := s.reporter == "slow"
 		s.mu.Unlock()
-	}})
+		if injected && slow {
+			// a reporter that takes its time and looks at the engine: it delays this one iteration (its end
+			// counts as the end of the fault), it must not wedge the loop
+			time.Sleep(2 * s.ivl)
+			_ = s.engine.Catalog()
+			now := tcMs(time.Now())
+			s.mu.Lock()
+			if now > s.blockEnd {
+				s.blockEnd = now
+			}
+			s.mu.Unlock()
+		}
+	}
+	if s.reporter == "nil" {
+		reporter = nil
+	}
+	client, engine, err := lungo.Open(nil, lungo.Options{Store: s.store, ExpireInterval: interval, ExpireErrors: reporter})
 	if err != nil {
 		return err
 	}
@@ -1049,13 +1131,21 @@ func (s *tcScn) closeEngine(e *lungo.Engine) bool {
 // ---- the scenario -----------------------------------------------------------------------------------
 
 func ttlclockCase(p tcParams) (c run.Case) {
-	s := &tcScn{p: p, ivl: time.Duration(p.IvMs) * time.Millisecond, reported: map[string]bool{}, perWitness: map[string]int{}}
+	s := &tcScn{p: p, ivl: time.Duration(p.IvMs) * time.Millisecond, reported: map[string]bool{}, perWitness: map[string]int{}, reporter: "fast"}
+	if p.Mode == "fault" {
+		s.reporter = []string{"nil", "fast", "slow"}[p.Bits>>48%3]
+		if p.Rep != "" {
+			s.reporter = p.Rep
+		}
+	}
 	start := time.Now()
 	summary := "incomplete"
 	nontrivial := false
 	defer func() {
 		if pv := recover(); pv != nil {
-			s.viol("ttl-clock:panic", "the scenario panicked", fmt.Sprint(pv)+"\n"+string(debug.Stack()))
+			if _, wedged := pv.(tcWedged); !wedged {
+				s.viol("ttl-clock:panic", "the scenario panicked", fmt.Sprint(pv)+"\n"+string(debug.Stack()))
+			}
 		}
 		store := "mem"
 		if p.File {
@@ -1233,6 +1323,43 @@ func ttlclockCase(p tcParams) (c run.Case) {
 	switch p.Mode {
 	case "timed", "canary", "reopen":
 		tcSleepUntil(deadline) // completely idle: not a single call into the engine
+	case "fault":
+		// completely idle as well; exactly one Store call — the commit of the k-th pass from now that removes
+		// something — fails; the documents of that pass and of the later groups must still go
+		k := 1 + int(p.Bits>>44%4)
+		s.store.arm(k, s.bit(53), func(end time.Time) {
+			s.mu.Lock()
+			s.faults++
+			s.faultAt = tcMs(end)
+			if s.faultAt > s.blockEnd {
+				s.blockEnd = s.faultAt
+			}
+			s.mu.Unlock()
+		})
+		s.tag("fault:pass-" + strconv.Itoa(k) + "/reporter-" + s.reporter)
+		tcSleepUntil(deadline)
+		s.mu.Lock()
+		deadline = max64(s.blockEnd, last) + s.slack() + 30
+		s.mu.Unlock()
+		tcSleepUntil(deadline)
+		s.mu.Lock()
+		fired, faultAt, reported := s.faults, s.faultAt, s.faultErrs
+		s.mu.Unlock()
+		switch {
+		case fired == 0:
+			s.tag("fault:not-fired")
+		case faultAt <= last:
+			s.tag("fault:before-the-last-group")
+		default:
+			s.tag("fault:at-the-last-group")
+		}
+		if fired > 0 && s.reporter != "nil" {
+			if reported > 0 {
+				s.tag("fault:reported")
+			} else {
+				s.tag("fault:NOT-reported")
+			}
+		}
 	case "busy":
 		// one client writer with acknowledged plain writes on the TTL collections themselves, next to the
 		// unrelated writes
@@ -1359,6 +1486,9 @@ func (s *tcScn) finalCheck(phase string) (removedSoon, total, gone int, latency 
 		for _, d := range kept {
 			from := max64(max64(d.x, d.ready), max64(max64(s.blockEnd, s.stallEnd), sn.slowEnd))
 			wit, what := "ttl-clock:kept-expired", "an expired document is still present on an idle database long after expiry + ExpireInterval"
+			if s.p.Mode == "fault" {
+				wit, what = "ttl-clock:stalled-after-fault", "an expired document is still present long after the one failed commit of an expiry pass"
+			}
 			if strings.HasPrefix(s.p.Mode, "sess-") {
 				wit, what = "ttl-clock:stalled-after-session", "an expired document is still present long after the session transaction that blocked the expiry ended"
 			}
@@ -1518,9 +1648,17 @@ func init() {
 			var ps []tcParams
 			for i, m := range tcModes {
 				for j, file := range []bool{false, true} {
-					ps = append(ps, tcGenParams(gen.New(0xC19, uint64(i), uint64(j)), m, file))
+					q := tcGenParams(gen.New(0xC19, uint64(i), uint64(j)), m, file)
+					if m == "fault" {
+						// every kind of error callback: slow on the memory store, none on the file store, fast below
+						q.Rep = []string{"slow", "nil"}[j]
+					}
+					ps = append(ps, q)
 				}
 			}
+			q := tcGenParams(gen.New(0xC19, 99, 0), "fault", false)
+			q.Rep = "fast"
+			ps = append(ps, q)
 			out := make([]run.Case, len(ps))
 			var wg sync.WaitGroup
 			for i := range ps {
